@@ -90,11 +90,13 @@ def expand_elements(
                         True  # Makes sure to update continue/break elements
                     )
                 elif isinstance(element, Continue):
+                    # The parsed element is replaced, not modified: the same parsed flows
+                    # can be expanded more than once (e.g. two runtimes from one config).
                     if element.label is None and continue_break_labels is not None:
-                        element.label = continue_break_labels[0]
+                        expanded_elements = [Continue(label=continue_break_labels[0])]
                 elif isinstance(element, Break):
                     if element.label is None and continue_break_labels is not None:
-                        element.label = continue_break_labels[1]
+                        expanded_elements = [Break(label=continue_break_labels[1])]
 
                 if len(expanded_elements) > 0:
                     # Map new elements to source
